@@ -1,0 +1,9 @@
+//go:build !verif
+// +build !verif
+
+package ucon
+
+// Observation points of the external verification harness; no-ops without the "verif" build tag.
+func verifOnVote(v *Voter, voteType VoteType, msg *BlockHashWithVotes) {}
+
+func verifOnCommit(v *Voter, ev *CommitEvent) {}
